@@ -163,6 +163,10 @@ func childMain(kind string) {
 		defer recordStack()
 		sink = plainCaller(2, func() { sink = (&box{}).viaGeneric(1, func() { panic("x") }) })
 		return
+	case "hugemsg": // a panic message of a little more than 1 MiB
+		defer recordStack()
+		sink = descendLong(2, strings.Repeat("secret-user-data ", (1<<20)/17+8))
+		return
 	case "longmsg": // a 200 KiB panic message before the goroutine stacks
 		defer recordStack()
 		sink = descendLong(2, strings.Repeat("secret-user-data ", 200*1024/17))
@@ -192,4 +196,21 @@ func childMain(kind string) {
 	}
 	defer recordStack()
 	sink = descend(depth, kind)
+}
+
+// monitorMain is the MONITOR side: the harness binary re-executed with
+// VH_MONITOR_OUT set runs the real crashmonitor.Child on its stdin; the name it
+// would count is appended to the file instead of being counted.
+func monitorMain(outPath string) {
+	record := func(line string) {
+		f, err := os.OpenFile(outPath, os.O_APPEND|os.O_CREATE|os.O_WRONLY, 0666)
+		if err == nil {
+			f.WriteString(line + "\n")
+			f.Close()
+		}
+	}
+	crashmonitor.VerifSetChildHooks(
+		func(name string) { record(fmt.Sprintf("name %x", name)) },
+		func() { record("exit") })
+	crashmonitor.Child()
 }
